@@ -18,14 +18,16 @@ fn settings() -> Arc<ConnectionSettings> {
     Arc::new(ConnectionSettings { connection_timeout_ms: 500, max_payload_size: 20480, max_inflight_count: 100, auth: None, external_auth: None, dynamic_filters: false })
 }
 
-fn connect_bytes(v: u8, id: &str) -> Vec<u8> {
+fn connect_bytes(v: u8, id: &str, alias: bool) -> Vec<u8> {
     let mut w = BytesMut::new();
     if v == 4 {
         let mut c = rumqttc::Connect::new(id);
         c.keep_alive = 30;
         rumqttc::Packet::Connect(c).write(&mut w, 1 << 20).unwrap();
     } else {
-        c5::Packet::Connect(c5::Connect { keep_alive: 30, client_id: id.into(), clean_start: true, properties: None }, None, None).write(&mut w, None).unwrap();
+        // a v5 client may allow the broker to use topic aliases towards it (Topic Alias Maximum)
+        let properties = if alias { let mut p = c5::ConnectProperties::new(); p.topic_alias_max = Some(10); Some(p) } else { None };
+        c5::Packet::Connect(c5::Connect { keep_alive: 30, client_id: id.into(), clean_start: true, properties }, None, None).write(&mut w, None).unwrap();
     }
     w.to_vec()
 }
@@ -65,7 +67,7 @@ async fn read_packets(v: u8, s: &mut DuplexStream, buf: &mut BytesMut, want: usi
     }
 }
 
-async fn run(pv: u8, sv: u8, mask: u32, subid: bool) -> Value {
+async fn run(pv: u8, sv: u8, mask: u32, subid: bool, alias: bool) -> Value {
     let config = RouterConfig { max_connections: 10, max_outgoing_packet_count: 10, max_segment_size: 100 * 1024, max_segment_count: 10, custom_segment: None,
         initialized_filters: None, shared_subscriptions_strategy: Strategy::RoundRobin };
     let tx = Router::new(0, config).spawn();
@@ -80,7 +82,7 @@ async fn run(pv: u8, sv: u8, mask: u32, subid: bool) -> Value {
     }
     let mut problems: Vec<String> = Vec::new();
     for (c, _, b, v, id) in ends.iter_mut() {
-        c.write_all(&connect_bytes(*v, id)).await.unwrap();
+        c.write_all(&connect_bytes(*v, id, alias && *id == "sub")).await.unwrap();
         let got = read_packets(*v, c, b, 1, 5000).await;
         if got.first().map_or(true, |p| p["t"] != "connack") { problems.push(format!("{id}: no connack: {got:?}")); }
     }
@@ -150,7 +152,7 @@ async fn run(pv: u8, sv: u8, mask: u32, subid: bool) -> Value {
     let ack = { let (c, _, b, v, _) = &mut ends[1]; read_packets(*v, c, b, 1, 5000).await };
     if !ack.iter().any(|p| p["t"] == "puback") { problems.push(format!("publisher got no puback: {ack:?}")); }
     for (_, t, _, _, _) in ends.iter() { t.abort(); }
-    json!({"pub": pv, "sub": sv, "mask": mask, "subid": subid, "ok": problems.is_empty(), "problems": problems, "forward": fwd})
+    json!({"pub": pv, "sub": sv, "mask": mask, "subid": subid, "alias": alias, "ok": problems.is_empty(), "problems": problems, "forward": fwd})
 }
 
 #[tokio::main(flavor = "multi_thread", worker_threads = 8)]
@@ -159,8 +161,8 @@ async fn main() {
     let a: Vec<String> = std::env::args().collect();
     let mut f = std::io::BufWriter::new(std::fs::File::create(&a[1]).unwrap());
     let mut hs = Vec::new();
-    for pv in [4u8, 5] { for sv in [4u8, 5] { for subid in [false, true] { if subid && sv == 4 { continue; }
-        for mask in 0..(if pv == 5 { 32 } else { 1 }) { hs.push(tokio::spawn(run(pv, sv, mask, subid))); } } } }
+    for pv in [4u8, 5] { for sv in [4u8, 5] { for (subid, alias) in [(false, false), (true, false), (false, true)] { if (subid || alias) && sv == 4 { continue; }
+        for mask in 0..(if pv == 5 { 32 } else { 1 }) { hs.push(tokio::spawn(run(pv, sv, mask, subid, alias))); } } } }
     let (mut n, mut bad) = (0, Vec::new());
     for h in hs {
         let r = match h.await { Ok(r) => r, Err(e) => json!({"ok": false, "problems": [format!("task panicked: {e}")]}) };
